@@ -163,6 +163,13 @@ func c11Property(t *rapid.T) {
 	genBlock := func(label string) *blockSpec {
 		b := &blockSpec{}
 		n := rapid.IntRange(0, 5).Draw(t, label+"-ntx")
+		if label == "crash" && rapid.IntRange(0, 5).Draw(t, "bigBlock") == 0 {
+			// a large block: stores that write big blocks in several batches show their intermediate states only here
+			for k := 0; k < rapid.IntRange(100, 130).Draw(t, "bigN"); k++ {
+				from := w.N.Admins[k%len(w.N.Admins)]
+				b.txs = append(b.txs, &txSpec{tx: w.Transfer(from, sim.KeyFor("c11-sink"), "1"), desc: "tx"})
+			}
+		}
 		for i := 0; i < n; i++ {
 			from := w.N.Admins[rapid.IntRange(0, len(w.N.Admins)-1).Draw(t, label+"-from")]
 			var tx pb.Transaction
@@ -288,7 +295,10 @@ func c11Property(t *rapid.T) {
 		}
 		fs.Arm(allowedState)
 		fc.Arm(allowedChain)
-		exec(n1, crashBlock)
+		// no read-back here: with later writes dropped the block may not be readable
+		if _, err := n1.ExecBlock(crashBlock.event(n1.Height() + 1)); err != nil {
+			f.fail("block %d not executed on a copy: %v", h, err)
+		}
 		seenS, seenC := fs.Seen, fc.Seen
 		n1.Close()
 		return d, seenS, seenC
@@ -374,6 +384,18 @@ func c11Property(t *rapid.T) {
 			if head > 1 {
 				if jr := journalRoot(got, head); jr != "" && !strings.EqualFold(jr, blk.BlockHeader.StateRoot.String()) {
 					return fmt.Sprintf("head block %d has state root %s, the state store's current root is %s", head, blk.BlockHeader.StateRoot.String(), jr)
+				}
+			}
+			if head == hOld {
+				// nothing of the lost block is visible through the index
+				for i, sp := range crashBlock.txs {
+					hash := sp.tx.GetHash()
+					if meta, err := n.Ledger.GetTransactionMeta(hash); err == nil && meta != nil {
+						return fmt.Sprintf("opens at height %d but transaction %d of the lost block %d has an index entry pointing to height %d", head, i, h, meta.BlockHeight)
+					}
+					if _, err := n.Ledger.GetReceipt(hash); err == nil {
+						return fmt.Sprintf("opens at height %d but the receipt of transaction %d of the lost block %d is returned", head, i, h)
+					}
 				}
 			}
 			if blocks, _ := n.BF.Blocks(); blocks != head {
